@@ -73,6 +73,8 @@ type VNode struct {
 	Adversary bool
 	// Inbox of the adversary: what a node at that position receives
 	Inbox []*Msg
+	// Pulls: signed missing-parent requests honest nodes sent to the adversary position
+	Pulls []*protobufcompiled.SignedHash
 }
 
 // Net is the network with its scheduler state.
@@ -195,6 +197,9 @@ func (s *stub) GetVertex(ctx context.Context, in *protobufcompiled.SignedHash, o
 	var item H
 	copy(item[:], in.Data)
 	if t.Adversary || t.Srv == nil {
+		s.n.mu.Lock()
+		t.Pulls = append(t.Pulls, proto.Clone(in).(*protobufcompiled.SignedHash))
+		s.n.mu.Unlock()
 		s.n.logEv(Event{Node: s.from, Kind: "pull", Item: item, Peer: s.to, OK: false, Err: "adversary does not answer"})
 		return nil, errors.New("unavailable")
 	}
